@@ -176,6 +176,15 @@ def c18(prop, tier):
                'non-trivial = moment with at least one activity in flight')
     r = vlib.tlc_check('Lifecycle.tla', lc_cfg(), 'C18-small')
     ck.require_model_ok(r, 'Lifecycle: moments x close kinds x later operations')
+    # the cache manager and its mutex (Load / Close / Destroy from several goroutines): nobody waits for a lock it holds itself
+    def cm_cfg(nested):
+        return ('CacheManager.cfg', 'SPECIFICATION Spec\nCONSTANTS Proc = {1, 2, 3} Path = {"a", "b"} NestedClose = %s\nINVARIANTS NoSelfWait LockSane\nCHECK_DEADLOCK FALSE\n' % ('TRUE' if nested else 'FALSE'))
+    cm = vlib.tlc_check('CacheManager.tla', cm_cfg(False), 'C18-cm')
+    ck.require_model_ok(cm, 'CacheManager: Load / Close / Destroy under one mutex, 3 goroutines, 2 paths')
+    cmm = vlib.tlc_check('CacheManager.tla', cm_cfg(True), 'C18-cm-mutant')
+    ck.add_tlc(cmm, 'CacheManager with Destroy closing under the mutex (mutant specification)')
+    if cmm.get('violated') != 'NoSelfWait':
+        ck.inconclusive.append('mutant specification (CacheManager, nested close) not refuted by TLC: vacuity guard failed')
     sims, _ = vlib.tlc_simulate('Lifecycle.tla', lc_cfg(), 'C18-sim', 500 if thorough else 140, 24, SEED)
     # keep one behaviour per (moment, close kind); behaviours that never close are of no use
     seen, bs = set(), []
